@@ -11,6 +11,7 @@
   eager_syntax_witness
   match_range_witness
   match_range_text_witness
+  match_range_select_witness
   tables_as_modelled
   prepare_terminates
   more_fuel_same_result
@@ -66,7 +67,7 @@ theorem inline_eq_runtime_partial (T : List Name) (files : Files) (hH : inH T fi
     obtain ⟨body', c', hli, hp, hc'⟩ := hl
     simp only [hli, Res.map_ok, Res.bind_ok]
     have h0 : StRel T files (St.init data) { St.init data with cache := c' } :=
-      ⟨rfl, rfl, .nil, .nil, hc'⟩
+      ⟨rfl, rfl, .nil, .nil, hc', rfl⟩
     have := simL (loadOK_of_inH hH) (textOK_of_inH hH) (sim hH fuel) hp (.ofKind kind) (.ofKind kind) _ _
       (Coup.ofKind (loadRaw_text (textOK_of_inH hH) hraw) (fun hk => by subst hk; rfl)) h0
     revert this
@@ -96,7 +97,7 @@ theorem renderOn_eq {T : List Name} {files : Files} (hH : inH T files = true) (f
     obtain ⟨body', c', hli, hp, hc'⟩ := hl
     simp only [hli, Res.map_ok, Res.bind_ok]
     have h0 : StRel T files { St.init data with cache := [] } { St.init data with cache := c' } :=
-      ⟨rfl, rfl, .nil, .nil, hc'⟩
+      ⟨rfl, rfl, .nil, .nil, hc', rfl⟩
     have := simL (loadOK_of_inH hH) (textOK_of_inH hH) (sim hH fuel) hp (.ofKind kind) (.ofKind kind) _ _
       (Coup.ofKind (loadRaw_text (textOK_of_inH hH) hraw) (fun hk => by subst hk; rfl)) h0
     revert this
@@ -376,6 +377,26 @@ theorem match_range_witness :
     renderInline wRange nA .markup [] 5 = .ok [.start ['d'], .text ['X'], .stop ['d']] ∧
     renderInlineReal wRange nA .markup [] 5 = .ok [.start ['d'], .text ['X'], .stop ['d']] ∧
     renderRuntime wRange nA .markup [] 5 = .err .notFound := by
+  decide +kernel
+
+/-- the same finding in its usual shape (seen independently by the C12 work package): a.html:
+`<d><py:match path="x"><w>${select('*|text()')}</w></py:match><py:match path="q"><q><k/>${select('*|text()')}</q></py:match>
+<x><xi:include href="b.html"/></x></d>`, b.html: `<q/>`.  At run time b.html's own match filter
+rewrites `<q/>` once, and the body of the template for `x` re-matches the selected content from
+the next template on: the template for `q` is applied twice; inlined, once -/
+def wSelect : Files :=
+  [[(nA, ⟨.markup, some [.elem ['d'] [
+        .matchT ['x'] [.elem ['w'] [.select]],
+        .matchT ['q'] [.elem ['q'] [.elem ['k'] [], .select]],
+        .elem ['x'] [.include (.static nB) .markup false [] nA]]]⟩),
+    (nB, ⟨.markup, some [.elem ['q'] []]⟩)]]
+
+theorem match_range_select_witness :
+    renderInlineReal wSelect nA .markup [] 6 =
+      .ok [.start ['d'], .start ['w'], .start ['q'], .start ['k'], .stop ['k'], .stop ['q'], .stop ['w'], .stop ['d']] ∧
+    renderRuntime wSelect nA .markup [] 6 =
+      .ok [.start ['d'], .start ['w'], .start ['q'], .start ['k'], .stop ['k'], .start ['k'], .stop ['k'],
+           .stop ['q'], .stop ['w'], .stop ['d']] := by
   decide +kernel
 
 /-- a.html: `<d><py:match path="q">Q</py:match><py:def function="m0"><q/></py:def>
